@@ -100,6 +100,13 @@ class C01Monitor(Monitor):
         self.acked_pings = {"c": set(), "s": set()}
         self.closed_by_script = False
         self.rebinds = 0
+        self.fair_rx_from_new_path = 0
+
+    def on_datagram_in(self, sim, x, data, addr, now):
+        if x == "s" and self.rebinds and now >= sim.adv_end:
+            srv = sim.ep["s"].conn
+            if srv is not None and srv._network_paths and addr == srv._network_paths[0].addr:
+                self.fair_rx_from_new_path += 1
 
     def on_api(self, sim, x, name, a):
         if name == "write":
@@ -177,6 +184,19 @@ class C01Monitor(Monitor):
         if any(ep.terminated for ep in sim.ep.values()):
             return
         # liveness on a fair network
+        if self.server_amplification_blocked(sim):
+            # RFC 9000 8.1 / 9.3: towards an address it could not validate (yet) a server may send at most three times what it received from
+            # it; a client that moved and then stays quiet gives it nothing to spend.  Nothing can be delivered and nothing is owed -
+            # unless the client did keep sending during the fair phase: then the server had every opportunity to validate the path.
+            if self.fair_rx_from_new_path >= 6:
+                sim.violation(
+                    "new-client-address-never-validated",
+                    "the server received %d datagrams from the client's new address during %.0f s of fair network and still treats it as unvalidated (3x limit: received %d bytes, sent %d)"
+                    % (self.fair_rx_from_new_path, sim.fair, sim.ep["s"].conn._network_paths[0].bytes_received, sim.ep["s"].conn._network_paths[0].bytes_sent),
+                )
+                return
+            sim.stats["c01:liveness-waived-server-amplification-blocked"] += 1
+            return
         for (x, sid), w in self.written.items():
             peer = sim.peer(x)
             if (x, sid) in self.reset or (peer, sid) in self.stopped:
@@ -197,17 +217,18 @@ class C01Monitor(Monitor):
                 sim.violation("ping-never-acknowledged" + cls, "%s: pings %r never acknowledged on a fair network%s" % (x, sorted(self.pings[x] - self.acked_pings[x]), cls))
                 return
 
-    def classify_stall(self, sim):
-        # a server whose peer moved to an address it could not validate (challenge or response lost) is limited to three
-        # times what it received from that address; with a quiet client nothing can ever be sent again
+    def server_amplification_blocked(self, sim):
         srv = sim.ep["s"].conn
         if self.rebinds and srv is not None:
             try:
                 path = srv._network_paths[0]
-                if not path.is_validated and path.bytes_received * 3 - path.bytes_sent < 64:
-                    return "-server-amplification-blocked-after-rebind"
+                # (29 bytes is the smallest 1-RTT packet: below that not even a PATH_CHALLENGE or an ACK can be sent)
+                return not path.is_validated and path.bytes_received * 3 - path.bytes_sent < 29 + 8
             except Exception:
                 pass
+        return False
+
+    def classify_stall(self, sim):
         tags = []
         if sim.stats["op:key_update"]:
             tags.append("key-update")
@@ -640,7 +661,7 @@ def sim_task(ctx, prop, profile_name, examples, shard):
     from hypothesis import strategies as st
     from .harness import run_hypothesis
 
-    strat = case_strategy(PROFILES[profile_name])
+    strat = rebind_strategy() if profile_name == "C01-rebind-validation" else case_strategy(PROFILES[profile_name])
 
     def body(ctx, case):
         sim = run_case(ctx, prop, case)
@@ -653,13 +674,34 @@ def sim_task(ctx, prop, profile_name, examples, shard):
         classes.append("cfg:" + case["cfg"]["cc"])
         nt = c01_nontrivial(sim) if prop == "C01" else bool(getattr(sim.monitors[0], "nontrivial", True))
         for k in sim.stats:
-            if k.startswith(("c09:", "c08:", "c13:", "c12:")):
+            if k.startswith(("c09:", "c08:", "c13:", "c12:", "c01:", "lost-first-to-new-address")):
                 classes.append(k)
         ctx.case(sim.seed(), nontrivial=nt, classes=classes)
         if ctx.want_sample():
             ctx.sample({"cfg": case["cfg"], "script": case["script"][:6], "fates": case["fates"][:8], "events": dict(list(sim.stats.items())[:12])})
 
     run_hypothesis(ctx, body, strat, examples, shard=shard)
+
+
+def rebind_strategy():
+    """a client that changes its address once and keeps talking, on a network that loses exactly the first datagrams sent to the new address"""
+    from hypothesis import strategies as st
+
+    def build(t):
+        t_rebind, lose, n_pings, gap, size, who_writes, cc, mds, fin = t
+        script = [{"t": t_rebind, "who": "c", "op": "rebind"}]
+        for i in range(n_pings):
+            script.append({"t": round(t_rebind + 0.05 + i * gap, 4), "who": "c", "op": "ping"})
+        script.append({"t": round(t_rebind + 0.3, 4), "who": who_writes, "op": "write", "stream": "bidi", "n": size, "fin": fin})
+        script.append({"t": round(t_rebind + 0.4, 4), "who": "s", "op": "write", "stream": "uni", "n": 5000, "fin": True})
+        script.sort(key=lambda o: o["t"])
+        cfg = {"cc": cc, "client_version": V1, "server_versions": [V1, V2], "max_data": 1048576, "max_stream_data": 1048576, "mds": mds, "lose_first_to_new_address": lose}
+        return {"cfg": cfg, "script": script, "fates": [], "jitter": [0.0], "adv_end": 3.0, "fair": 20.0}
+
+    return st.tuples(
+        st.sampled_from([0.3, 0.5, 1.0]), st.sampled_from([1, 1, 2, 3]), st.integers(3, 12), st.sampled_from([0.05, 0.2, 0.4]), st.sampled_from([100, 20000, 300000, 300000]),
+        st.sampled_from(["s", "s", "c"]), st.sampled_from(["reno", "cubic"]), st.sampled_from([1200, 1350]), st.booleans(),
+    ).map(build)
 
 
 def plan_for(prop, tier, seed):
@@ -669,6 +711,7 @@ def plan_for(prop, tier, seed):
         n = 14 if q else 16
         for s in range(n):
             t.append(("sim-c01-%d" % s, {"fn": "sim", "profile": "C01" if s % 2 == 0 else "C01-norebind", "examples": 220 if q else 5000, "shard": s}))
+        t.append(("sim-c01-rebind-validation", {"fn": "sim", "profile": "C01-rebind-validation", "examples": 60 if q else 2000, "shard": 0}))
     if prop in ("C09", "C12", "C13"):
         n = 14 if q else 16
         for s in range(n):
